@@ -253,4 +253,225 @@ theorem dispatch_symframe (st : Static) (d d' : Defs) (ctx : RCtx) (n : AstNode)
   · injection h with h; injection h with h1 _; subst h1
     exact ⟨fun _ _ => rfl, fun _ => rfl, fun _ hh => hh, fun _ _ _ _ _ _ _ => rfl⟩
 
+/-! ## when a mark appears -/
+
+/-- an instruction gets its mark only in the short-cut branch; everything else leaves marks alone -/
+theorem resolveInstruction_freeze (st : Static) (d d' : Defs) (ctx : RCtx) (ref : Nat) (s : Bool) (rep : List String)
+    (h : resolveInstruction st d ctx ref = .ok (d', s, rep)) :
+    (∀ r, r ≠ ref → d'.instrs.getD r default = d.instrs.getD r default) ∧
+    ((d.instrs.getD ref default).resolved = false → (d'.instrs.getD ref default).resolved = true →
+      st.opts.optStatic = true ∧ ctx.first = true ∧ (d.instrs.getD ref default).known = true ∧
+      allDefinite st d ctx ((d.instrs.getD ref default).cands.map (·.m)) = true ∧
+      ∃ encs rep0 e, resolveEncoding st d evalFuel ctx ((d.instrs.getD ref default).cands.map (·.m)) {} = .ok (some encs, rep0) ∧
+        encs.length = 1 ∧ encs.head? = some e ∧ (d'.instrs.getD ref default).encoding = e.2) := by
+  unfold resolveInstruction at h
+  simp only at h
+  rcases ite_ok_inv _ _ _ _ h with ⟨hr, h⟩ | ⟨hr, h⟩
+  · injection h with h; injection h with h1 _; subst h1
+    exact ⟨fun _ _ => rfl, fun h1 h2 => by rw [h1] at h2; cases h2⟩
+  · cases he : resolveEncoding st d evalFuel ctx ((d.instrs.getD ref default).cands.map (·.m)) {} with
+    | error m => rw [he] at h; cases h
+    | ok x =>
+      obtain ⟨encs, reported⟩ := x
+      rw [he] at h
+      simp only at h
+      cases encs with
+      | none =>
+        simp only [Option.bind_none] at h
+        injection h with h; injection h with h1 _; subst h1
+        exact ⟨fun _ _ => rfl, fun h1 h2 => by rw [h1] at h2; cases h2⟩
+      | some l =>
+        cases l with
+        | nil =>
+          simp only [Option.bind_some, List.head?_nil, Option.map_none] at h
+          injection h with h; injection h with h1 _; subst h1
+          exact ⟨fun _ _ => rfl, fun h1 h2 => by rw [h1] at h2; cases h2⟩
+        | cons e t =>
+          simp only [Option.bind_some, List.head?_cons, Option.map_some] at h
+          rcases ite_ok_inv _ _ _ _ h with ⟨hc, h⟩ | ⟨hc, h⟩
+          · injection h with h; injection h with h1 _; subst h1
+            refine ⟨fun r hne => getD_set_ne _ _ _ _ _ (Ne.symm hne), fun _ h2 => ?_⟩
+            simp only [Bool.and_eq_true] at hc
+            obtain ⟨⟨⟨⟨c1, c2⟩, c3⟩, c4⟩, c5⟩ := hc
+            have hlen : (e :: t).length = 1 := by simpa using c4
+            refine ⟨c1, c2, c3, c5, e :: t, reported, e, rfl, hlen, rfl, ?_⟩
+            rcases getD_set_eq_or d.instrs ref ref { (d.instrs.getD ref default) with encoding := e.2, resolved := true } default with h3 | ⟨_, h3⟩
+            · rw [h3] at h2; rw [h2] at hr; exact absurd rfl hr
+            · rw [h3]
+          · have hd : d' = { d with instrs := d.instrs.set ref { (d.instrs.getD ref default) with encoding := e.2 } } := by
+              rcases ite_ok_inv _ _ _ _ h with ⟨_, h⟩ | ⟨_, h⟩ <;>
+              · injection h with h; injection h with h1 _; exact h1.symm
+            subst hd
+            refine ⟨fun r hne => getD_set_ne _ _ _ _ _ (Ne.symm hne), fun h1 h2 => ?_⟩
+            exfalso
+            rcases getD_set_eq_or d.instrs ref ref { (d.instrs.getD ref default) with encoding := e.2 } default with h3 | ⟨_, h3⟩
+            · simp only at h2; rw [h3, h1] at h2; cases h2
+            · simp only at h2; rw [h3] at h2; simp only at h2; rw [h1] at h2; cases h2
+
+theorem resolveData_freeze (st : Static) (d d' : Defs) (ctx : RCtx) (ref : Nat) (sz : Option Nat) (e : Expr) (s : Bool) (rep : List String)
+    (h : resolveData st d ctx ref sz e = .ok (d', s, rep)) :
+    (∀ r, r ≠ ref → d'.datas.getD r default = d.datas.getD r default) ∧
+    ((d.datas.getD ref default).resolved = false → (d'.datas.getD ref default).resolved = true →
+      st.opts.optStatic = true ∧ ctx.first = true ∧ (d.datas.getD ref default).known = true ∧
+      ∃ v c b0, resolverEval st d ctx {} e = .ok (v, c) ∧ dataEnc true v = .ok (some b0) ∧
+        dataCheck true sz (some b0) = .ok () ∧ (d'.datas.getD ref default).encoding = dataSlice sz b0) := by
+  unfold resolveData at h
+  simp only at h
+  rcases ite_ok_inv _ _ _ _ h with ⟨hr, h⟩ | ⟨hr, h⟩
+  · injection h with h; injection h with h1 _; subst h1
+    exact ⟨fun _ _ => rfl, fun h1 h2 => by rw [h1] at h2; cases h2⟩
+  · cases hev : resolverEval st d ctx {} e with
+    | error m => rw [hev] at h; cases h
+    | ok x =>
+      obtain ⟨v, c⟩ := x
+      rw [hev] at h
+      simp only at h
+      cases hen : dataEnc (ctx.last || (d.datas.getD ref default).known) v with
+      | error m => rw [hen] at h; cases h
+      | ok enc =>
+        rw [hen] at h
+        simp only at h
+        cases hck : dataCheck (ctx.last || (d.datas.getD ref default).known) sz enc with
+        | error m => rw [hck] at h; cases h
+        | ok u =>
+          rw [hck] at h
+          simp only at h
+          unfold dataStore at h
+          simp only at h
+          cases enc with
+          | none =>
+            simp only [Option.map_none] at h
+            injection h with h; injection h with h1 _; subst h1
+            exact ⟨fun _ _ => rfl, fun h1 h2 => by rw [h1] at h2; cases h2⟩
+          | some b0 =>
+            simp only [Option.map_some] at h
+            rcases ite_ok_inv _ _ _ _ h with ⟨hc, h⟩ | ⟨hc, h⟩
+            · injection h with h; injection h with h1 _; subst h1
+              refine ⟨fun r hne => getD_set_ne _ _ _ _ _ (Ne.symm hne), fun _ h2 => ?_⟩
+              simp only [Bool.and_eq_true] at hc
+              obtain ⟨⟨⟨c1, c2⟩, c3⟩, _⟩ := hc
+              rw [c3, Bool.or_true] at hen hck
+              refine ⟨c1, c2, c3, v, c, b0, rfl, hen, hck, ?_⟩
+              rcases getD_set_eq_or d.datas ref ref { (d.datas.getD ref default) with encoding := dataSlice sz b0, resolved := true } default with h3 | ⟨_, h3⟩
+              · rw [h3] at h2; rw [h2] at hr; exact absurd rfl hr
+              · rw [h3]
+            · have hd : d' = { d with datas := d.datas.set ref { (d.datas.getD ref default) with encoding := dataSlice sz b0 } } := by
+                rcases ite_ok_inv _ _ _ _ h with ⟨_, h⟩ | ⟨_, h⟩ <;>
+                · injection h with h; injection h with h1 _; exact h1.symm
+              subst hd
+              refine ⟨fun r hne => getD_set_ne _ _ _ _ _ (Ne.symm hne), fun h1 h2 => ?_⟩
+              exfalso
+              rcases getD_set_eq_or d.datas ref ref { (d.datas.getD ref default) with encoding := dataSlice sz b0 } default with h3 | ⟨_, h3⟩
+              · simp only at h2; rw [h3, h1] at h2; cases h2
+              · simp only at h2; rw [h3] at h2; simp only at h2; rw [h1] at h2; cases h2
+
+theorem resolveLabel_items (st : Static) (d d' : Defs) (ctx : RCtx) (ref : Nat) (s : Bool) (rep : List String)
+    (h : resolveLabel st d ctx ref = .ok (d', s, rep)) : d'.instrs = d.instrs ∧ d'.datas = d.datas := by
+  unfold resolveLabel at h
+  simp only at h
+  repeat' (first | (split at h))
+  all_goals (cases h <;> exact ⟨rfl, rfl⟩)
+
+theorem resolveConstant_items (st : Static) (d d' : Defs) (ctx : RCtx) (ref : Nat) (e : Expr) (s : Bool) (rep : List String)
+    (h : resolveConstant st d ctx ref e = .ok (d', s, rep)) : d'.instrs = d.instrs ∧ d'.datas = d.datas := by
+  unfold resolveConstant at h
+  simp only at h
+  repeat' (first | (split at h))
+  all_goals (cases h <;> exact ⟨rfl, rfl⟩)
+
+theorem resolveRes_items (st : Static) (d d' : Defs) (ctx : RCtx) (ref : Nat) (e : Expr) (s : Bool) (rep : List String)
+    (h : resolveRes st d ctx ref e = .ok (d', s, rep)) : d'.instrs = d.instrs ∧ d'.datas = d.datas := by
+  unfold resolveRes at h
+  simp only at h
+  repeat' (first | (split at h))
+  all_goals (cases h <;> exact ⟨rfl, rfl⟩)
+
+theorem resolveAlign_items (st : Static) (d d' : Defs) (ctx : RCtx) (ref : Nat) (e : Expr) (s : Bool) (rep : List String)
+    (h : resolveAlign st d ctx ref e = .ok (d', s, rep)) : d'.instrs = d.instrs ∧ d'.datas = d.datas := by
+  unfold resolveAlign at h
+  simp only at h
+  repeat' (first | (split at h))
+  all_goals (cases h <;> exact ⟨rfl, rfl⟩)
+
+theorem resolveAddr_items (st : Static) (d d' : Defs) (ctx : RCtx) (ref : Nat) (e : Expr) (s : Bool) (rep : List String)
+    (h : resolveAddr st d ctx ref e = .ok (d', s, rep)) : d'.instrs = d.instrs ∧ d'.datas = d.datas := by
+  unfold resolveAddr at h
+  simp only at h
+  repeat' (first | (split at h))
+  all_goals (cases h <;> exact ⟨rfl, rfl⟩)
+
+theorem resolveAssert_items (st : Static) (d d' : Defs) (ctx : RCtx) (e : Expr) (s : Bool) (rep : List String)
+    (h : resolveAssert st d ctx e = .ok (d', s, rep)) : d'.instrs = d.instrs ∧ d'.datas = d.datas := by
+  rw [resolveAssert_id st d d' ctx e s rep h]; exact ⟨rfl, rfl⟩
+
+theorem resolveInstruction_datas (st : Static) (d d' : Defs) (ctx : RCtx) (ref : Nat) (s : Bool) (rep : List String)
+    (h : resolveInstruction st d ctx ref = .ok (d', s, rep)) : d'.datas = d.datas := by
+  unfold resolveInstruction at h
+  simp only at h
+  repeat' (first | (split at h))
+  all_goals (cases h <;> rfl)
+
+theorem resolveData_instrs (st : Static) (d d' : Defs) (ctx : RCtx) (ref : Nat) (sz : Option Nat) (e : Expr) (s : Bool) (rep : List String)
+    (h : resolveData st d ctx ref sz e = .ok (d', s, rep)) : d'.instrs = d.instrs := by
+  unfold resolveData dataStore at h
+  simp only at h
+  repeat' (first | (split at h))
+  all_goals (cases h <;> rfl)
+
+/-- a new mark on an instruction comes from that instruction's own node, through the short-cut -/
+theorem dispatch_new_instr_mark (st : Static) (d d' : Defs) (ctx : RCtx) (n : AstNode) (k : Nat) (s : Bool) (rep : List String)
+    (h : dispatch st d ctx n k = .ok (d', s, rep)) (ref : Nat)
+    (h1 : (d.instrs.getD ref default).resolved = false) (h2 : (d'.instrs.getD ref default).resolved = true) :
+    (∃ src, n = .instr src (some ref)) ∧
+      st.opts.optStatic = true ∧ ctx.first = true ∧ (d.instrs.getD ref default).known = true ∧
+      allDefinite st d ctx ((d.instrs.getD ref default).cands.map (·.m)) = true ∧
+      ∃ encs rep0 e, resolveEncoding st d evalFuel ctx ((d.instrs.getD ref default).cands.map (·.m)) {} = .ok (some encs, rep0) ∧
+        encs.length = 1 ∧ encs.head? = some e ∧ (d'.instrs.getD ref default).encoding = e.2 := by
+  have same : d'.instrs = d.instrs → False := fun he => by rw [he, h1] at h2; cases h2
+  unfold dispatch at h
+  split at h
+  · rename_i level name kind ne r
+    cases kind with
+    | label => exact absurd (resolveLabel_items st d d' ctx r s rep h).1 same
+    | constant e => exact absurd (resolveConstant_items st d d' ctx r e s rep h).1 same
+  · rename_i src r
+    obtain ⟨f1, f2⟩ := resolveInstruction_freeze st d d' ctx r s rep h
+    by_cases hr : ref = r
+    · subst hr
+      exact ⟨⟨src, rfl⟩, f2 h1 h2⟩
+    · rw [f1 ref hr, h1] at h2; cases h2
+  · exact absurd (resolveData_instrs st d d' ctx _ _ _ s rep h) same
+  · exact absurd (resolveRes_items st d d' ctx _ _ s rep h).1 same
+  · exact absurd (resolveAlign_items st d d' ctx _ _ s rep h).1 same
+  · exact absurd (resolveAddr_items st d d' ctx _ _ s rep h).1 same
+  · exact absurd (resolveAssert_items st d d' ctx _ s rep h).1 same
+  · injection h with h; injection h with h1' _; subst h1'; rw [h1] at h2; cases h2
+
+theorem dispatch_new_data_mark (st : Static) (d d' : Defs) (ctx : RCtx) (n : AstNode) (k : Nat) (s : Bool) (rep : List String)
+    (h : dispatch st d ctx n k = .ok (d', s, rep)) (ref : Nat)
+    (h1 : (d.datas.getD ref default).resolved = false) (h2 : (d'.datas.getD ref default).resolved = true) :
+    ∃ sz es refs, n = .data sz es refs ∧ refs.getD k 0 = ref ∧
+      st.opts.optStatic = true ∧ ctx.first = true ∧ (d.datas.getD ref default).known = true ∧
+      ∃ v c b0, resolverEval st d ctx {} (es.getD k default) = .ok (v, c) ∧ dataEnc true v = .ok (some b0) ∧
+        dataCheck true sz (some b0) = .ok () ∧ (d'.datas.getD ref default).encoding = dataSlice sz b0 := by
+  have same : d'.datas = d.datas → False := fun he => by rw [he, h1] at h2; cases h2
+  unfold dispatch at h
+  split at h
+  · rename_i level name kind ne r
+    cases kind with
+    | label => exact absurd (resolveLabel_items st d d' ctx r s rep h).2 same
+    | constant e => exact absurd (resolveConstant_items st d d' ctx r e s rep h).2 same
+  · exact absurd (resolveInstruction_datas st d d' ctx _ s rep h) same
+  · rename_i sz es refs
+    obtain ⟨f1, f2⟩ := resolveData_freeze st d d' ctx (refs.getD k 0) sz (es.getD k default) s rep h
+    by_cases hr : ref = refs.getD k 0
+    · subst hr
+      exact ⟨sz, es, refs, rfl, rfl, f2 h1 h2⟩
+    · rw [f1 ref hr, h1] at h2; cases h2
+  · exact absurd (resolveRes_items st d d' ctx _ _ s rep h).2 same
+  · exact absurd (resolveAlign_items st d d' ctx _ _ s rep h).2 same
+  · exact absurd (resolveAddr_items st d d' ctx _ _ s rep h).2 same
+  · exact absurd (resolveAssert_items st d d' ctx _ s rep h).2 same
+  · injection h with h; injection h with h1' _; subst h1'; rw [h1] at h2; cases h2
+
 end Casm
